@@ -217,6 +217,33 @@ fn main() {
     let text = std::fs::read_to_string(&file).expect("read witness");
     let w: Witness = serde_json::from_str(&text).expect("witness json");
 
+    // --generic PROP [--variant NAME]: ignore the witness's own conditions and configuration; run its PROGRAM under the named
+    // configuration variant and evaluate the fixed list of relational oracles of PROP (tools: bin/check generic probes)
+    let generic_prop: Option<String> = args.iter().position(|a| a == "--generic").map(|i| args[i + 1].clone());
+    let variant: String = args.iter().position(|a| a == "--variant").map(|i| args[i + 1].clone()).unwrap_or_else(|| "default".to_string());
+    let mut w = w;
+    if generic_prop.is_some() {
+        let mk = |src: &str, dst: Option<&str>, op: bool, bare: bool| CsiJson { src: src.to_string(), dst: dst.map(|x| x.to_string()), operator: Some(op), allowed_without_callee: Some(bare) };
+        let methods_only = || vec![mk("substring", Some("stringSubstring"), false, false), mk("trim", Some("stringTrim"), false, false), mk("concat", Some("stringConcat"), false, false), mk("slice", None, false, false), mk("replace", None, false, false)];
+        w.config = ConfigJson::default();
+        w.real_fs = false;
+        match variant.as_str() {
+            "default" => {}
+            "no_tpl" => { let mut v = methods_only(); v.push(mk("plusOperator", None, true, false)); w.config.csi_methods = Some(v); }
+            "methods_only" => { w.config.csi_methods = Some(methods_only()); }
+            "plus_only" => { w.config.csi_methods = Some(vec![mk("plusOperator", None, true, false)]); }
+            "tpl_only" => { w.config.csi_methods = Some(vec![mk("tplOperator", None, true, false)]); }
+            "renamed" => { w.config.csi_methods = Some(vec![mk("plusOperator", Some("plus_op"), true, false), mk("tplOperator", Some("tpl$"), true, false), mk("substring", Some("sub"), false, false), mk("trim", Some("_trim"), false, false), mk("concat", Some("cc"), false, true)]); }
+            "empty" => { w.config.csi_methods = Some(vec![]); }
+            "stress" => { w.config.chain_source_map = Some(true); w.config.print_comments = Some(true); w.config.prologue = Some(true); }
+            "comments" => { w.config.print_comments = Some(true); }
+            "prologue" => { w.config.prologue = Some(true); }
+            "information" => { w.config.verbosity = Some("INFORMATION".to_string()); }
+            "off" => { w.config.verbosity = Some("OFF".to_string()); }
+            other => panic!("unknown variant {other}"),
+        }
+    }
+    let w = w;
     let methods: Vec<CsiMethod> = match &w.config.csi_methods {
         Some(v) => v
             .iter()
@@ -430,9 +457,9 @@ fn main() {
         println!("--- literal {:?} {}:{} ident={:?}", l.0, l.1, l.2, l.3);
     }
 
+    let eval_conds = |conds: &Vec<serde_json::Value>| -> bool {
     let mut all = true;
-    let no_conds: Vec<serde_json::Value> = Vec::new();
-    for cond in (if only_panics { &no_conds } else { &w.violated_when }) {
+    for cond in conds {
         let obj = cond.as_object().expect("condition object");
         for (k, v) in obj {
             let holds = match k.as_str() {
@@ -670,9 +697,40 @@ fn main() {
             all &= holds;
         }
     }
+    all
+    };
+    let no_conds: Vec<serde_json::Value> = Vec::new();
+    let mut all = eval_conds(if only_panics || generic_prop.is_some() { &no_conds } else { &w.violated_when });
     if only_panics {
         println!("--- only-panics mode: panicked={panicked}");
         all = panicked;
+    }
+    if let Some(prop) = &generic_prop {
+        // each oracle: a conjunction of conditions that describes a violation whatever the program is
+        let j = |t: &str| -> Vec<serde_json::Value> { serde_json::from_str(t).expect("oracle json") };
+        let ok_run = r#"{"errors":false},{"panics":false}"#;
+        let oracles: Vec<(&str, Vec<serde_json::Value>)> = match prop.as_str() {
+            // (the per-tag breakdown exists in debug verbosity only)
+            "C15" if variant == "information" => vec![("hooks_ne_metric", j(&format!("[{ok_run},{{\"hooks_ne_metric\":true}}]")))],
+            "C15" => vec![("hooks_ne_metric", j(&format!("[{ok_run},{{\"hooks_ne_metric\":true}}]"))), ("debug_sum_ne_metric", j(&format!("[{ok_run},{{\"debug_sum_ne_metric\":true}}]")))],
+            "C12" => vec![("modified_without_hook", j(&format!("[{ok_run},{{\"status_is\":\"modified\"}},{{\"hooks_eq\":0}}]"))), ("modified_without_valid_map", j(&format!("[{ok_run},{{\"status_is\":\"modified\"}},{{\"map_invalid\":true}}]"))),
+                          ("hook_without_modified", j(&format!("[{ok_run},{{\"status_is\":\"notmodified\"}},{{\"hooks_ne\":0}}]")))],
+            "C05" => vec![("unconfigured_hook_referenced", j(&format!("[{ok_run},{{\"unconfigured_hook_referenced\":true}}]")))],
+            "C09" => vec![("map_points_outside_input", j(&format!("[{ok_run},{{\"status_is\":\"modified\"}},{{\"map_points_outside_input\":true}}]"))),
+                          ("copied_identifier_mismapped", j(&format!("[{ok_run},{{\"status_is\":\"modified\"}},{{\"copied_identifier_mismapped\":true}}]"))),
+                          ("hook_call_mapped_outside_statement", j(&format!("[{ok_run},{{\"status_is\":\"modified\"}},{{\"hook_call_mapped_outside_statement\":true}}]")))],
+            "C10" => vec![("trailer_count", j(&format!("[{ok_run},{{\"status_is\":\"modified\"}},{{\"map_invalid\":true}}]")))],
+            "C14" => vec![("literals_changed_by_instrumentation", j(&format!("[{ok_run},{{\"literals_changed_by_instrumentation\":true}}]"))), ("literal_not_at_reported_position", j(&format!("[{ok_run},{{\"literal_not_at_reported_position\":true}}]")))],
+            "C13" => vec![("panics", j(r#"[{"panics":true}]"#))],
+            other => panic!("no generic oracles for {other}"),
+        };
+        all = false;
+        for (name, conds) in &oracles {
+            if eval_conds(conds) {
+                println!("GENERIC-FAIL {name}");
+                all = true;
+            }
+        }
     }
     for d in &real_dirs { let _ = std::env::set_current_dir(std::env::temp_dir()); let _ = std::fs::remove_dir_all(d); }
     println!("{}", if all { "REPRODUCED" } else { "NOT-REPRODUCED" });
